@@ -1,2 +1,4 @@
-# registry of implemented checks (order = build order)
-ALL = ["C19"]
+# registry of implemented checks: every props/Cxx.py is a check
+import os, re
+ALL = sorted(f[:-3] for f in os.listdir(os.path.dirname(os.path.abspath(__file__)))
+             if re.match(r"^C[0-9]{2,3}\.py$", f))
